@@ -84,6 +84,8 @@ def run(ctx):
             (dict(hosts=["10.0.0.1", "10.0.0.2"], rounds=6, prelude=["ok|10.0.0.1|ok", "drop"], **small), 1),
             (dict(hosts=["10.0.0.1"], rounds=5, prelude=["ok|10.0.0.1|auth-error"], **small), 2),
             (dict(hosts=["10.0.0.1"], rounds=6, prelude=["refuse", "timer", "refuse", "timer", "refuse", "close", "zc-same"], **small), 1),
+            # the controller itself gives a connection up (garbled 2xx reply to an application write on an idle session): retries must follow
+            (dict(hosts=["10.0.0.1"], rounds=6, behaviours=["ok", "auth-error"], triggers=["put-garbled:not-json", "put-garbled:not-utf8", "put-garbled:truncated-json", "drop", "zc-same", "close"]), 2),
             # other environments (read boundaries, block sizes, HTTP spelling of the accessory's replies): nothing in the property depends on them
             (dict(hosts=["10.0.0.1", "10.0.0.2"], rounds=8, env=dict(delivery="bytes", frames=[7], http="chunked-lower"), **small), 1),
             (dict(hosts=["10.0.0.1"], rounds=6, subscriptions=True, env=dict(delivery="3/4", frames=[40], http="lower"), behaviours=["ok", "ok-bad-subscribe-reply", "auth-error", "m4-auth-error"], triggers=["zc-same", "ensure", "drop", "close"]), 1),
